@@ -211,7 +211,7 @@ def claim (b : Bank) (who : Addr) (ext : Ext) : Bank := (b.credit who fee ext.re
 /-- x/selfdelegation Msg/SelfDelegate for delegator `d` (after getRootOwner and the proxy creation):
     send fee d→proxy, ConvertReverse at the proxy, staking Delegate from the proxy (boundary `ext.ok`) -/
 def modSelfDelegate (s : St) (d : Addr) (amt : Int) (ext : Ext) : Res St :=
-  if amt < 0 then .panic .explicit          -- sdk.NewCoin(feeDenom, negative)
+  if amt ≤ 0 then .err "invalid-amount"     -- Msg/SelfDelegate rejects a non-positive amount (as fixed; it panicked in sdk.NewCoin)
   else if !ext.ok then .err "ext"
   else
     let p := proxyOf d
@@ -224,7 +224,8 @@ def modSelfDelegate (s : St) (d : Addr) (amt : Int) (ext : Ext) : Res St :=
 
 /-- x/selfdelegation Msg/WithdrawSelfDelegationUnbonded for delegator `d`: Convert at the proxy, send fee proxy→d -/
 def modWithdraw (s : St) (d : Addr) (amt : Int) : Res St :=
-  if !s.hasProxy d then .err "no-proxy"
+  if amt ≤ 0 then .err "invalid-amount"     -- Msg/WithdrawSelfDelegationUnbonded rejects a non-positive amount (as fixed)
+  else if !s.hasProxy d then .err "no-proxy"
   else
     let p := proxyOf d
     (Convert.convert bond fee s.bank p amt).bind fun b1 =>
@@ -268,11 +269,13 @@ def doNvDelegate (s : St) (caller sender : Addr) (valOk : Bool) (denom : Denom) 
   else
     (lockedNow s).bind fun locked =>
     if blocked s then .err "unbonding-entry"
+    -- TrackDelegation: a negative amount passes the zero/insufficient test, X = min(max(V−DV,0), D) = D < 0 and
+    -- sdk.NewCoin(bondDenom, X) panics ("negative coin amount") before the validator is even looked at
+    else if amt < 0 then .panic .explicit
     else match trackDelegation s.variant (s.bank.bal lock fee) locked s.DV s.DF amt with
     | none => .err "track-delegation"
     | some (dv, df) =>
       if !valOk then .err "validator"
-      else if amt < 0 then .panic .explicit     -- shareclass ConvertAndDelegate: sdk.NewCoin(negative)
       else if !ext.ok then .err "ext"
       else
         let b0 := claim s.bank lock ext
